@@ -162,6 +162,7 @@ fn catalogue(out: &mut Out) -> Vec<(J, CustomOperation, bool)> {
 fn check_catalogue(out: &mut Out) {
     let ops = catalogue(out);
     out.stat_n("catalogue_ops", ops.len() as u64);
+    out.stat("catalogue-not-swept:TruncateMPC(u128 field, typetag cannot deserialize)");
     let mut reported: BTreeMap<String, u64> = BTreeMap::new();
     for i in 0..ops.len() {
         let ni = ops[i].1.get_name();
@@ -242,7 +243,12 @@ fn check_type_printing(out: &mut Out, rng: &mut Rng, n: usize) {
             list(&pool[i], |t| coq_string(&format!("{t}"))), json!({"types": strs[i]}), pool[i].iter().any(|t| !t.is_scalar()));
         for j in (i + 1)..pool.len() {
             if pool[i] != pool[j] {
-                if strs[i] == strs[j] {
+                if strs[i] == strs[j] && pool[i].iter().map(no_empty_named).collect::<Vec<_>>() == pool[j].iter().map(no_empty_named).collect::<Vec<_>>() {
+                    // known ambiguity of Display for Type, outside the property's quantifier: no
+                    // library operation takes an empty tuple (see "assumes" in tools/props/C08.json
+                    // and C08_type_printing_not_injective in Props/C08.v); counted, not hidden
+                    out.stat("type-printing:ambiguous-pair:empty-tuple-vs-empty-named-tuple");
+                } else if strs[i] == strs[j] {
                     out.violation("type-printing-collision", json!({"types1": format!("{:?}", pool[i]), "types2": format!("{:?}", pool[j])}), format!("both print as {:?}", strs[i]));
                 } else {
                     out.oracle_ok();
@@ -251,6 +257,28 @@ fn check_type_printing(out: &mut Out, rng: &mut Rng, n: usize) {
         }
     }
     out.stat_n("type_lists_compared", pool.len() as u64);
+}
+
+/// The type with every empty named tuple replaced by the empty tuple (both print as "()").
+fn no_empty_named(t: &Type) -> Type {
+    match t {
+        Type::Scalar(_) | Type::Array(_, _) => t.clone(),
+        Type::Vector(n, t1) => vector_type(*n, no_empty_named(t1)),
+        Type::Tuple(ts) => tuple_type(ts.iter().map(|x| no_empty_named(x)).collect()),
+        Type::NamedTuple(fs) if fs.is_empty() => tuple_type(vec![]),
+        Type::NamedTuple(fs) => named_tuple_type(fs.iter().map(|(n, x)| (n.clone(), no_empty_named(x))).collect()),
+    }
+}
+
+/// The two printer ambiguities the model predicts (Props/C08.v), confirmed on the real code.
+fn confirm_printer_ambiguities(out: &mut Out) {
+    let a = named_tuple_type(vec![("a\\\": i32, \\\"b".into(), scalar_type(INT32))]);
+    let b = named_tuple_type(vec![("a".into(), scalar_type(INT32)), ("b".into(), scalar_type(INT32))]);
+    out.stat(&format!("type-printing:quote-in-field-name-collides:{}", a != b && format!("{a}") == format!("{b}")));
+    let (c, d) = (tuple_type(vec![]), named_tuple_type(vec![]));
+    out.stat(&format!("type-printing:empty-tuple-collides:{}", c != d && format!("{c}") == format!("{d}")));
+    out.case("ty_str", format!("map ty_str {}", list(&[a.clone(), b.clone(), c.clone(), d.clone()], |t| ty(t))),
+        list(&[a, b, c, d], |t| coq_string(&format!("{t}"))), json!({"types": "printer ambiguities"}), true);
 }
 
 // ------------------------------------------------------------------------------ export
@@ -871,6 +899,7 @@ pub fn run(tier: &str, seed: u64, out: &mut Out) {
     // (1) exhaustive on the grid, every run
     check_catalogue(out);
     check_type_printing(out, &mut rng, if tier == "quick" { 60 } else { 160 });
+    confirm_printer_ambiguities(out);
     if tier == "search" {
         return;
     }
@@ -883,7 +912,7 @@ pub fn run(tier: &str, seed: u64, out: &mut Out) {
     }
     let (light, heavy) = match tier {
         "thorough" => (220, 40),
-        _ => (28, 4),
+        _ => (22, 4),
     };
     for i in 0..light {
         let plan = gen_plan(&mut rng, false);
